@@ -488,6 +488,11 @@ func c11Engine(c *core.Ctx, o *core.Outcome) *core.Outcome {
 		cfg.CacheSize = uint32(t.Range(8, 60)) // a capacity the loaded values can exceed
 	}
 	sharePe := t.Chance(1, 3)
+	// or: every session keeps its own persister over the shared handle and selects its session through it
+	keepPe := !sharePe && t.Chance(1, 3)
+	if keepPe {
+		cfg.SetSession = true // the twins served alone select their session on the handle, the shared world through the persister
+	}
 	p := fullProfile(t, cfg.FlagCount)
 	p.EndNodes = t.Chance(1, 3)
 	a := app.Generate(t, p)
@@ -519,6 +524,10 @@ func c11Engine(c *core.Ctx, o *core.Outcome) *core.Outcome {
 	}
 	scfg := cfg
 	scfg.SharePersister = sharePe // only the shared world: the twins are served alone, each by its own persister
+	scfg.KeepPersister = keepPe
+	if keepPe {
+		o.Probes["engine_level_run_with_a_kept_persister_per_session"]++
+	}
 	shared := world.New(a, scfg)
 	shared.UseBackend()
 	shared.ShareHandle()
